@@ -280,3 +280,15 @@ Definition path_ok (path : list portion) : Prop :=
 (* the module files found in the directories of a __path__, as a set *)
 Definition in_path (path : list portion) (m : module) : Prop :=
   exists po, In po path /\ In m (pfiles po).
+
+(* What Python guarantees when the directories of an implicit package hold files
+   of the same name: "." + name is ONE module (the file in the first directory
+   of __path__ that has it; the others are shadowed), so what the import does
+   and what inspect.getmembers yields depend on the name only. *)
+Definition name_determines_module (path : list portion) : Prop :=
+  forall m n, in_path path m -> in_path path n -> mname m = mname n ->
+    classes m = classes n /\ import_fails m = import_fails n.
+
+(* no module file name occurs in two directories *)
+Definition names_distinct (path : list portion) : Prop :=
+  forall m n, in_path path m -> in_path path n -> mname m = mname n -> m = n.
